@@ -326,6 +326,10 @@ class RefServer:
         elif action == "GARBAGE":
             self.emit(b"* what is this\r\n")
             self.silent = True
+        elif action == "BYE-REFERRAL":
+            # RFC 5804 1.3: the server sends the client elsewhere
+            self.emit(status(b"BYE", b'REFERRAL "sieve://other.example.org"', b"Try the other server"))
+            self.closed = True
         else:
             raise AssertionError(action)
 
@@ -757,6 +761,21 @@ class VSocket:
         self.closed_by_client = True
 
     def sendall(self, data):
+        # write-side fault: (k, exception factory) - accept the first k octets of this call's data, then raise once (a send
+        # timeout / a dropped connection after a partial write); what was accepted is on the wire for good
+        wf = getattr(self, "write_fault", None)
+        if wf is not None and len(wf) > 2 and wf[2] > 0:
+            self.write_fault = (wf[0], wf[1], wf[2] - 1)  # let this many sendall calls pass first
+            wf = None
+        if wf is not None:
+            k, make_exc = wf[:2]
+            self.write_fault = None
+            part = data[:k]
+            if part:
+                self.written += part
+                self.writes.append(part)
+                self.server.feed(part, tls_channel=self.tls)
+            raise make_exc()
         self.written += data
         self.writes.append(data)
         self.server.feed(data, tls_channel=self.tls)
